@@ -553,6 +553,19 @@ func TestC06(t *testing.T) {
 				rt.Fatalf("C06 violated by %v: %s", c, v)
 			}
 		}
+		// a recurrent node of a Model is one operator instance serving Run after Run: after another
+		// sequence of the same shape it must answer like a fresh instance
+		if res.ok() && rapid.IntRange(0, 5).Draw(rt, "instanceServedAnotherSequence") == 0 {
+			c1 := c
+			c1.X = make([]float32, len(c.X))
+			for i, v := range c.X {
+				c1.X[i] = -v + 0.25
+			}
+			ev.Class("C06", "instance-reused-after-another-sequence")
+			if d := reuseDifferential(c.kind, node, c1.inputs(), c.inputs()); d != "" {
+				rt.Fatalf("C06 violated by %v after the same operator instance processed another sequence of the same shape: %s", c, d)
+			}
+		}
 		if res.ok() && rapid.IntRange(0, 5).Draw(rt, "reuseWeightObjects") == 0 {
 			// same weight tensor objects, new contents, fresh operator
 			ins := c.inputs()
